@@ -306,8 +306,14 @@ func (sw *SessionWindow) startProcessingTime() {
 		}
 
 		// Periodically check expired sessions
+		// half the timeout, but never below a millisecond: a sub-2ns timeout would give a zero
+		// period, on which NewTicker panics (in this goroutine, taking the process down)
+		checkInterval := sw.timeout / 2
+		if checkInterval < time.Millisecond {
+			checkInterval = time.Millisecond
+		}
 		sw.tickerMu.Lock()
-		sw.ticker = time.NewTicker(sw.timeout / 2)
+		sw.ticker = time.NewTicker(checkInterval)
 		ticker := sw.ticker
 		sw.tickerMu.Unlock()
 
